@@ -184,7 +184,17 @@ static Exec exec_op(Case &c, Ctx &x, const Op &o)
     case OP_NUMCHIPS: { int rc = 0; API("opn2_setNumChips", rc = opn2_setNumChips(d, o.a)); x.chips = o.a; e.structural = true; (void)rc; break; }
     case OP_EMU: { int rc = 0; API("opn2_switchEmulator", rc = opn2_switchEmulator(d, o.a)); x.emu = o.a; e.structural = true; (void)rc; break; }
     case OP_CHIPTYPE: API("opn2_setChipType", opn2_setChipType(d, o.a)); e.structural = true; break;
-    case OP_BANKLOAD: prepare_bank(c, x, false); e.structural = true; break;
+    case OP_BANKLOAD:
+        if(o.a > 0)
+        {   // a bank file the parser refuses: the loaded bank stays in place, sounding notes keep playing instruments of it
+            std::vector<uint8_t> img = default_bank();
+            switch(o.a) { case 1: img.resize(img.size() / 2); break; case 2: img.resize(300); break; case 3: img.resize(img.size() - 1); break; case 4: img[3] ^= 0x20; break; default: img.resize(17); break; }
+            ExactBuf b(img); int rc = 0; API("opn2_openBankData", rc = opn2_openBankData(d, b.p, (long)b.n));
+            if(rc == 0) { prepare_bank(c, x, false); e.structural = true; }      // accepted after all (not expected): treat as a reload
+            else count("refused_bank_loads");
+            break;
+        }
+        prepare_bank(c, x, false); e.structural = true; break;
     case OP_INSEDIT:
     {
         OPN2_BankId id; id.percussive = (uint8_t)o.b; id.msb = 0; id.lsb = 0; OPN2_Bank bk; int rc = 0;
@@ -280,7 +290,7 @@ static Op gen_op(Rng &r, const std::string &mode, int nkeys, bool allow_struct)
             else if(q < 60) { o.kind = OP_NUMCHIPS; o.a = r.range(1, 4); }
             else if(q < 68) { o.kind = OP_EMU; o.a = r.pick((const int[]){0, 2, 0, 2, 4, 5}); }
             else if(q < 75) { o.kind = OP_CHIPTYPE; o.a = r.range(-1, 1); }
-            else if(q < 84) o.kind = OP_BANKLOAD;
+            else if(q < 84) { o.kind = OP_BANKLOAD; o.a = r.chance(0.35) ? 1 + (int)r.below(5) : 0; }     // a > 0: a damaged bank image (must be refused and change nothing)
             else if(q < 90) o.kind = OP_RESET;
             else if(q < 96) { o.kind = OP_SEQ; o.a = (int)r.below(100000); o.b = (int)r.below(1000); }
             else { o.kind = OP_ALLOCMODE; o.a = r.range(-1, 2); }
